@@ -12,12 +12,14 @@ Variable data : Type.
 Variable zero : data.
 Variable lock : N.
 Variable midcheck : bool.
+Variable postcopy : bool.
+Variable recheck : bool.
 
 Local Notation state := (state data).
 Local Notation inv := (inv data zero lock).
-Local Notation step := (step data lock midcheck).
-Local Notation run := (run data lock midcheck).
-Local Notation steps_ok := (steps_ok data lock midcheck).
+Local Notation step := (step data lock midcheck postcopy recheck).
+Local Notation run := (run data lock midcheck postcopy recheck).
+Local Notation steps_ok := (steps_ok data lock midcheck postcopy recheck).
 Local Notation restoreL := (restore data zero lock).
 
 (** * G1-G4 (DESIGN.md Appendix A.2), derived from the step rules *)
@@ -268,19 +270,21 @@ Qed.
 
 End Main.
 
-(** * The fixed control flow ([midcheck = true]): every checkpoint mode *)
+(** * The control flow with both fixes ([midcheck = postcopy = true]): every checkpoint mode *)
 Section Fixed.
 Variable data : Type.
 Variable zero : data.
 Variable lock : N.
+(** [recheck = false]: /repo as it stands; [true]: with the proposed re-read *)
+Variable recheck : bool.
 
 Local Notation state := (state data).
 Local Notation inv := (inv data zero lock).
-Local Notation safe := (safe data).
-Local Notation step := (step data lock true).
-Local Notation run := (run data lock true).
-Local Notation steps_ok := (steps_ok data lock true).
-Local Notation steps_window := (steps_window data lock true).
+Local Notation safe := (safe data recheck).
+Local Notation step := (step data lock true true recheck).
+Local Notation run := (run data lock true true recheck).
+Local Notation steps_ok := (steps_ok data lock true true recheck).
+Local Notation steps_window := (steps_window data lock true true recheck).
 Local Notation restoreL := (restore data zero lock).
 Local Notation acks_true := (acks_true data).
 
@@ -301,26 +305,29 @@ Proof.
       apply Same. cbn. eapply do_sync_acks; eauto.
     + destruct (do_sync data lock s k) eqn:Ed; [|discriminate]. inversion E; subst.
       apply Same. cbn. eapply do_sync_acks; eauto.
+    + destruct (needs_post true m rb); [|discriminate].
+      destruct (do_sync data lock s k) eqn:Ed; [|discriminate]. inversion E; subst.
+      apply Same. cbn. eapply do_sync_acks; eauto.
     + destruct (do_sync data lock s k) eqn:Ed; [|discriminate]. inversion E; subst.
       apply Same. cbn. eapply do_sync_acks; eauto.
   - destruct (pc data s) eqn:Epc; try discriminate. destruct (l0 data s) eqn:El; [discriminate|].
     destruct ((cgen data s =? gen data s) && (cfo data s =? flen data (txs data s))); [|discriminate].
     inversion E; subst. intros n im b [A|A]; [|eapply Ha; eauto].
     inversion A; subst. destruct (cur data s) eqn:Ec; try reflexivity.
-    exfalso. destruct (s_L _ _ Hs Ec) as [B|[B|[B|B]]].
+    exfalso. destruct (s_L _ _ _ Hs Ec) as [B|[B|[B|B]]].
     + rewrite El in B. discriminate.
     + rewrite Epc in B. discriminate.
     + rewrite Epc in B. discriminate.
     + rewrite Epc in B. discriminate.
   - destruct (pc data s); try discriminate. destruct (phys data s); [discriminate|].
     destruct (opened data s); [|discriminate]. inversion E; subst. apply Same. reflexivity.
-  - destruct (pc data s) as [| |m0 ?| | | | | | | | | |]; try discriminate.
+  - destruct (pc data s) as [| |m0 ?| | | | | | | | | | | | ]; try discriminate.
     + destruct m0; try discriminate. inversion E; subst. apply Same. reflexivity.
     + inversion E; subst. apply Same. reflexivity.
-  - destruct (pc data s) as [| |m0 ?| | | | | | | | | |]; try discriminate.
+  - destruct (pc data s) as [| |m0 ?| | | | | | | | | | | | ]; try discriminate.
     + destruct (mode_eqb m0 Passive); [discriminate|]. inversion E; subst. apply Same. reflexivity.
     + inversion E; subst. apply Same. reflexivity.
-  - destruct (pc data s) as [| | | | |m0 ? ?| | | | | | |]; try discriminate.
+  - destruct (pc data s) as [| | | | |m0 ? ?| | | | | | | | | ]; try discriminate.
     destruct (ls_mark data s); [discriminate|].
     destruct m0;
       match type of E with (if ?c then _ else _) = _ => destruct c; [|discriminate] end;
@@ -330,9 +337,12 @@ Proof.
   - destruct (pc data s); try discriminate. destruct (ls_mark data s); [|discriminate].
     inversion E; subst. apply Same. reflexivity.
   - destruct (pc data s); try discriminate.
+    + destruct (needs_post true m rb); [discriminate|]. inversion E; subst. apply Same. reflexivity.
+    + inversion E; subst. apply Same. reflexivity.
+  - destruct (pc data s); try discriminate.
     destruct (do_commit data s t restart) eqn:Ed; [|discriminate]. inversion E; subst.
     apply Same. cbn. eapply do_commit_acks; eauto.
-  - destruct (pc data s) as [| | | | | | | |m0 hg0 pre0 wn0 rb0| | | |]; try discriminate.
+  - destruct (pc data s) as [| | | | | | | | | |m0 hg0 pre0 wn0 rb0| | | |]; try discriminate.
     destruct (ck_decide m0 hg0 (gen data s) pre0 wn0 rb0); inversion E; subst; apply Same; reflexivity.
   - destruct (pc data s); try discriminate. destruct (phys data s); [discriminate|].
     inversion E; subst. apply Same. reflexivity.
@@ -361,12 +371,12 @@ Theorem pinned_never_lost s0 ls s :
   init_ok data zero lock s0 -> run s0 ls = Some s -> steps_ok s0 ls -> steps_window s0 ls ->
   cur data s = Lost ->
   l0 data s = [] \/ pendingb (pc data s) = true \/ closedb (pc data s) = true \/
-  lost_okb (pc data s) (gen data s) = true.
+  lost_okb recheck (pc data s) (gen data s) = true.
 Proof.
   intros Hi E Hok Hpt.
-  destruct (run_safe ls s0 s (init_inv _ _ _ _ Hi) (init_safe _ _ _ _ Hi) (init_acks_true _ _ _ _ Hi) E Hok Hpt)
+  destruct (run_safe ls s0 s (init_inv _ _ _ _ Hi) (init_safe _ _ _ _ _ Hi) (init_acks_true _ _ _ _ Hi) E Hok Hpt)
     as [_ [Hs _]].
-  apply (s_L _ _ Hs).
+  apply (s_L _ _ _ Hs).
 Qed.
 
 (** ** C01, whole histories, all four checkpoint modes *)
@@ -376,7 +386,7 @@ Theorem acked_sync_restores_lemma s0 ls s :
   img_eq data (restoreL (firstn n (l0 data s))) im.
 Proof.
   intros Hi E Hok Hpt n im b Hin.
-  destruct (run_safe ls s0 s (init_inv _ _ _ _ Hi) (init_safe _ _ _ _ Hi) (init_acks_true _ _ _ _ Hi) E Hok Hpt)
+  destruct (run_safe ls s0 s (init_inv _ _ _ _ Hi) (init_safe _ _ _ _ _ Hi) (init_acks_true _ _ _ _ Hi) E Hok Hpt)
     as [H [_ Ha]].
   rewrite (Ha n im b Hin) in Hin. apply (i_acks _ _ _ _ H). exact Hin.
 Qed.
@@ -385,17 +395,21 @@ Qed.
 Definition mode_of (p : pcT) : option mode :=
   match p with
   | PHdr m _ | PCopied m _ | PReleased m _ _
-  | PCkpted m _ _ _ | PUnlocked m _ _ _ _ | PBumped m _ _ _ _ => Some m
+  | PCkpted m _ _ _ | PMid m _ _ _ _ | PPost m _ _ _ | PUnlocked m _ _ _ _ | PBumped m _ _ _ _ => Some m
   | _ => None
   end.
 Definition pc_pt (p : pcT) : bool :=
   match mode_of p with Some m => mode_pt m | None => true end.
 
-Lemma window_ok_pt s l : pc_pt (pc data s) = true -> window_ok data s l = true.
+Lemma window_ok_pt s l : pc_pt (pc data s) = true -> window_ok data true recheck s l = true.
 Proof.
-  unfold window_ok, pc_pt. destruct (pc data s); try reflexivity.
-  cbn. intros A. destruct (ls_mark data s); [reflexivity|]. destruct l; try reflexivity.
-  destruct m; try discriminate; reflexivity.
+  unfold window_ok, pc_pt. intros A.
+  assert (Hp : post_pending true (pc data s) = false).
+  { destruct (pc data s); try reflexivity. cbn in *. unfold needs_post.
+    destruct m; try discriminate; reflexivity. }
+  destruct l; try reflexivity.
+  - destruct restart; [rewrite Hp; apply orb_true_r|reflexivity].
+  - rewrite Hp. apply orb_true_r.
 Qed.
 
 Lemma do_commit_pc s t r s' : do_commit data s t r = Some s' -> pc data s' = pc data s.
@@ -421,19 +435,21 @@ Proof.
     + apply Hsame. destruct (do_sync_frame _ _ _ _ _ E) as [_ [_ [_ [_ [F5 _]]]]]. congruence.
     + destruct (do_sync data lock s k); [|discriminate]. inversion E; subst. exact Hp.
     + destruct (do_sync data lock s k); [|discriminate]. inversion E; subst. reflexivity.
+    + destruct (needs_post true m rb); [|discriminate].
+      destruct (do_sync data lock s k); [|discriminate]. inversion E; subst. exact Hp.
     + destruct (do_sync data lock s k); [|discriminate]. inversion E; subst. reflexivity.
   - destruct (pc data s) eqn:Epc; try discriminate. destruct (l0 data s); [discriminate|].
     destruct ((cgen data s =? gen data s) && (cfo data s =? flen data (txs data s))); [|discriminate].
     inversion E; subst. apply Hsame; cbn; first [reflexivity | assumption].
   - destruct (pc data s) eqn:Epc; try discriminate. destruct (phys data s); [discriminate|].
     destruct (opened data s); [|discriminate]. inversion E; subst. exact Hl.
-  - destruct (pc data s) as [| |m0 ?| | | | | | | | | |] eqn:Epc; try discriminate.
+  - destruct (pc data s) as [| |m0 ?| | | | | | | | | | | | ] eqn:Epc; try discriminate.
     + destruct m0; try discriminate. inversion E; subst. reflexivity.
     + inversion E; subst. reflexivity.
-  - destruct (pc data s) as [| |m0 ?| | | | | | | | | |] eqn:Epc; try discriminate.
+  - destruct (pc data s) as [| |m0 ?| | | | | | | | | | | | ] eqn:Epc; try discriminate.
     + destruct (mode_eqb m0 Passive); [discriminate|]. inversion E; subst. exact Hp.
     + inversion E; subst. reflexivity.
-  - destruct (pc data s) as [| | | | |m0 ? ?| | | | | | |] eqn:Epc; try discriminate.
+  - destruct (pc data s) as [| | | | |m0 ? ?| | | | | | | | | ] eqn:Epc; try discriminate.
     destruct (ls_mark data s); [discriminate|].
     destruct m0;
       match type of E with (if ?c then _ else _) = _ => destruct c; [|discriminate] end;
@@ -443,8 +459,11 @@ Proof.
   - destruct (pc data s) eqn:Epc; try discriminate. destruct (ls_mark data s); [|discriminate].
     inversion E; subst. exact Hp.
   - destruct (pc data s) eqn:Epc; try discriminate.
+    + destruct (needs_post true m rb); [discriminate|]. inversion E; subst. exact Hp.
+    + inversion E; subst. exact Hp.
+  - destruct (pc data s) eqn:Epc; try discriminate.
     destruct (do_commit data s t restart) eqn:Ed; [|discriminate]. inversion E; subst. exact Hp.
-  - destruct (pc data s) as [| | | | | | | |m0 hg0 pre0 wn0 rb0| | | |] eqn:Epc; try discriminate.
+  - destruct (pc data s) as [| | | | | | | | | |m0 hg0 pre0 wn0 rb0| | | |] eqn:Epc; try discriminate.
     destruct (ck_decide m0 hg0 (gen data s) pre0 wn0 rb0); inversion E; subst; reflexivity.
   - destruct (pc data s) eqn:Epc; try discriminate. destruct (phys data s); [discriminate|].
     inversion E; subst. reflexivity.
@@ -474,6 +493,24 @@ Proof.
 Qed.
 
 End Fixed.
+
+(** with the proposed re-read after the post-checkpoint copy no side condition is left *)
+Lemma steps_window_recheck (data : Type) (lock : N) ls : forall (s : state data),
+  steps_window data lock true true true s ls.
+Proof.
+  induction ls as [|l r IH]; intros s; cbn [Machine.steps_window]; [exact I|].
+  split; [destruct l; try reflexivity; destruct restart; reflexivity|].
+  destruct (step data lock true true true s l); [apply IH|exact I].
+Qed.
+
+Theorem acked_sync_restores_recheck (data : Type) (zero : data) (lock : N) s0 ls s :
+  init_ok data zero lock s0 -> run data lock true true true s0 ls = Some s ->
+  steps_ok data lock true true true s0 ls ->
+  forall n im b, In (n, im, b) (acks data s) ->
+  img_eq data (restore data zero lock (firstn n (l0 data s))) im.
+Proof.
+  intros Hi E Hok. eapply acked_sync_restores_lemma; eauto. apply steps_window_recheck.
+Qed.
 
 (** * Non-vacuity: two generations, a PASSIVE checkpoint, an application commit
       between "copy before" and the barrier *)
@@ -506,6 +543,7 @@ Definition ex_steps : list (label N) :=
     LsRelease N;
     LsCkpt N 3 3%N;                (* PASSIVE backfills everything *)
     LsReacquire N;                 (* mark 0 *)
+    LsMid N;
     LsUnlock N;
     LsBump N ex_t4 true;           (* the bump restarts the WAL: generation 1 *)
     LsCmpHdr N;
@@ -517,7 +555,7 @@ Definition ex_steps : list (label N) :=
 Example ex_init_ok : init_ok N 0%N 1000%N ex_init.
 Proof. unfold init_ok. cbn. repeat split; auto. Qed.
 
-Example ex_steps_ok : steps_ok N 1000%N true ex_init ex_steps.
+Example ex_steps_ok : steps_ok N 1000%N true true false ex_init ex_steps.
 Proof.
   cbn [ex_steps Machine.steps_ok].
   repeat (split; [first [exact I | apply tx_okb_sound; vm_compute; reflexivity]|]; vm_compute Machine.step; cbv iota beta).
@@ -535,12 +573,12 @@ Example ex_run :
                         snd (restore N 0%N 1000%N (l0 N s)),
                         map (fst (restore N 0%N 1000%N (l0 N s))) [1; 2; 3; 4]%N,
                         map (fst (committed N s)) [1; 2; 3; 4]%N))
-             (run N 1000%N true ex_init ex_steps)
+             (run N 1000%N true true false ex_init ex_steps)
   = Some (5, 1, Idle, AtLive 2, [5; 2], 4%N, [12; 23; 33; 44]%N, [12; 23; 33; 44]%N).
 Proof. vm_compute. reflexivity. Qed.
 
 Example ex_theorem_applies :
-  forall s, run N 1000%N true ex_init ex_steps = Some s ->
+  forall s, run N 1000%N true true false ex_init ex_steps = Some s ->
   forall n im b, In (n, im, b) (acks N s) ->
   img_eq N (restore N 0%N 1000%N (firstn n (l0 N s))) im.
 Proof.
@@ -562,6 +600,7 @@ Definition ex2_steps : list (label N) :=
     AppCommit N [F 1 3 13] false;  (* after it *)
     LsCkpt N 4 3%N;                (* TRUNCATE: backfill all, empty the -wal file: generation 1 *)
     LsReacquire N;
+    LsMid N;
     LsUnlock N;
     LsBump N [F 2 3 24] false;     (* first frame of the new file *)
     LsCmpHdr N;                    (* header changed, mode TRUNCATE: boundary snapshot *)
@@ -569,7 +608,7 @@ Definition ex2_steps : list (label N) :=
     LsBoundarySnap N;
     LsAck N ].
 
-Example ex2_steps_ok : steps_ok N 1000%N true ex_init ex2_steps.
+Example ex2_steps_ok : steps_ok N 1000%N true true false ex_init ex2_steps.
 Proof.
   cbn [ex2_steps Machine.steps_ok].
   repeat (split; [first [exact I | apply tx_okb_sound; vm_compute; reflexivity]|]; vm_compute Machine.step; cbv iota beta).
@@ -582,7 +621,7 @@ Example ex2_run :
                         snd (restore N 0%N 1000%N (l0 N s)),
                         map (fst (restore N 0%N 1000%N (l0 N s))) [1; 2; 3]%N,
                         map (fst (committed N s)) [1; 2; 3]%N))
-             (run N 1000%N true ex_init ex2_steps)
+             (run N 1000%N true true false ex_init ex2_steps)
   = Some (2, 1, Idle, AtLive 1, [(2, true); (1, true)], 3%N, [13; 24; 31]%N, [13; 24; 31]%N).
 Proof. vm_compute. reflexivity. Qed.
 
@@ -612,6 +651,7 @@ Definition bad_steps : list (label N) :=
     LsRelease N;                   (* read transaction rolled back, pre = 2 *)
     LsCkpt N 1 2%N;                (* FULL: walFrameN = 1 *)
     LsReacquire N;
+    LsMid N;
     LsUnlock N;
     LsBump N [F 2 2 22] true;      (* restarts the WAL again: generation 2 *)
     LsCmpHdr N;                    (* 1 <= 2: re-copy instead of boundary snapshot *)
@@ -620,14 +660,14 @@ Definition bad_steps : list (label N) :=
 
 Theorem full_checkpoint_window_refuted :
   exists (s0 : state N) ls s n im b,
-    init_ok N 0%N 1000%N s0 /\ run N 1000%N false s0 ls = Some s /\ steps_ok N 1000%N false s0 ls /\
+    init_ok N 0%N 1000%N s0 /\ run N 1000%N false false false s0 ls = Some s /\ steps_ok N 1000%N false false false s0 ls /\
     In (n, im, b) (acks N s) /\
     ~ img_eq N (restore N 0%N 1000%N (firstn n (l0 N s))) im.
 Proof.
-  destruct (run N 1000%N false ex_init bad_steps) as [s|] eqn:E; [|vm_compute in E; discriminate].
+  destruct (run N 1000%N false false false ex_init bad_steps) as [s|] eqn:E; [|vm_compute in E; discriminate].
   exists ex_init, bad_steps, s.
   assert (Hs : option_map (fun s => (map (fun a => fst (fst a)) (acks N s), length (l0 N s)))
-                          (run N 1000%N false ex_init bad_steps) = Some ([2; 1], 2)).
+                          (run N 1000%N false false false ex_init bad_steps) = Some ([2; 1], 2)).
   { vm_compute. reflexivity. }
   rewrite E in Hs. cbn in Hs. inversion Hs as [[Ha Hl]]. clear Hs.
   destruct (acks N s) as [|[[n im] b] r] eqn:Ea; [discriminate|].
@@ -644,27 +684,27 @@ Proof.
                                            fst (restore N 0%N 1000%N (firstn n (l0 N s))) 1%N, fst im 1%N)
                                       | [] => (0%N, 0%N, 0%N)
                                       end)
-                            (run N 1000%N false ex_init bad_steps) = Some (2%N, 11%N, 99%N)).
+                            (run N 1000%N false false false ex_init bad_steps) = Some (2%N, 11%N, 99%N)).
     { vm_compute. reflexivity. }
     rewrite E in Hv. cbn [option_map] in Hv. rewrite Ea in Hv. inversion Hv as [[H1 H2 H3]].
     specialize (Hp 1%N). rewrite H1, H2, H3 in Hp.
     assert (11 = 99)%N by (apply Hp; lia). discriminate.
 Qed.
 
-(** the same history under the fixed control flow: the header re-read after the
+(** the same history under the fixed control flow (both fixes): the header re-read after the
     PRAGMA sees generation 1, the boundary snapshot is taken, the
     acknowledgement restores the application's commit *)
 Definition fixed_steps : list (label N) :=
-  firstn 15 bad_steps ++ [LsLockWrite N; LsBoundarySnap N; LsAck N].
+  firstn 16 bad_steps ++ [LsLockWrite N; LsBoundarySnap N; LsAck N].
 
-Example fixed_steps_ok : steps_ok N 1000%N true ex_init fixed_steps.
+Example fixed_steps_ok : steps_ok N 1000%N true true false ex_init fixed_steps.
 Proof.
   cbn [fixed_steps bad_steps firstn app Machine.steps_ok].
   repeat (split; [first [exact I | apply tx_okb_sound; vm_compute; reflexivity]|]; vm_compute Machine.step; cbv iota beta).
   exact I.
 Qed.
 
-Example fixed_steps_window : steps_window N 1000%N true ex_init fixed_steps.
+Example fixed_steps_window : steps_window N 1000%N true true false ex_init fixed_steps.
 Proof.
   cbn [fixed_steps bad_steps firstn app Machine.steps_window].
   repeat (split; [reflexivity|]; vm_compute Machine.step; cbv iota beta).
@@ -676,15 +716,15 @@ Example fixed_run :
                         map (fun a => (fst (fst a), snd a)) (acks N s),
                         map (fst (restore N 0%N 1000%N (l0 N s))) [1; 2]%N,
                         map (fst (committed N s)) [1; 2]%N))
-             (run N 1000%N true ex_init fixed_steps)
+             (run N 1000%N true true false ex_init fixed_steps)
   = Some (2, 2, Idle, AtLive 1, [(2, true); (1, true)], [99; 22]%N, [99; 22]%N).
 Proof. vm_compute. reflexivity. Qed.
 
 (** and the old re-copy step is no longer enabled there *)
-Example fixed_no_recopy : run N 1000%N true ex_init bad_steps = None.
+Example fixed_no_recopy : run N 1000%N true true false ex_init bad_steps = None.
 Proof. vm_compute. reflexivity. Qed.
 
-(** * The window the fix leaves open ([window_ok]): FULL/RESTART, between the
+(** * The window commit 80a5b27 alone leaves open (postcopy = false): FULL/RESTART, between the
       PRAGMA's return and the re-acquisition of the read transaction.  An
       application reader holding mark 2 keeps the application's commit from
       restarting the WAL (it is appended as frame 3), the reader ends, the
@@ -706,6 +746,7 @@ Definition bad2_steps : list (label N) :=
     AppCommit N [F 1 2 99] false;  (* appended: an application reader blocks the restart *)
     AppCkpt N 3 2%N;               (* application checkpoint completes the backfill *)
     LsReacquire N;                 (* mark 0 *)
+    LsMid N;
     LsUnlock N;                    (* header unchanged *)
     LsBump N [F 2 2 22] true;      (* restarts the WAL: generation 1 *)
     LsCmpHdr N;                    (* 2 <= 2: re-copy *)
@@ -714,14 +755,14 @@ Definition bad2_steps : list (label N) :=
 
 Theorem full_checkpoint_post_pragma_window_refuted :
   exists (s0 : state N) ls s n im b,
-    init_ok N 0%N 1000%N s0 /\ run N 1000%N true s0 ls = Some s /\ steps_ok N 1000%N true s0 ls /\
+    init_ok N 0%N 1000%N s0 /\ run N 1000%N true false false s0 ls = Some s /\ steps_ok N 1000%N true false false s0 ls /\
     In (n, im, b) (acks N s) /\
     ~ img_eq N (restore N 0%N 1000%N (firstn n (l0 N s))) im.
 Proof.
-  destruct (run N 1000%N true ex_init bad2_steps) as [s|] eqn:E; [|vm_compute in E; discriminate].
+  destruct (run N 1000%N true false false ex_init bad2_steps) as [s|] eqn:E; [|vm_compute in E; discriminate].
   exists ex_init, bad2_steps, s.
   assert (Hs : option_map (fun s => (map (fun a => fst (fst a)) (acks N s), length (l0 N s)))
-                          (run N 1000%N true ex_init bad2_steps) = Some ([2; 1], 2)).
+                          (run N 1000%N true false false ex_init bad2_steps) = Some ([2; 1], 2)).
   { vm_compute. reflexivity. }
   rewrite E in Hs. cbn in Hs. inversion Hs as [[Ha Hl]]. clear Hs.
   destruct (acks N s) as [|[[n im] b] r] eqn:Ea; [discriminate|].
@@ -738,9 +779,126 @@ Proof.
                                            fst (restore N 0%N 1000%N (firstn n (l0 N s))) 1%N, fst im 1%N)
                                       | [] => (0%N, 0%N, 0%N)
                                       end)
-                            (run N 1000%N true ex_init bad2_steps) = Some (2%N, 11%N, 99%N)).
+                            (run N 1000%N true false false ex_init bad2_steps) = Some (2%N, 11%N, 99%N)).
     { vm_compute. reflexivity. }
     rewrite E in Hv. cbn [option_map] in Hv. rewrite Ea in Hv. inversion Hv as [[H1 H2 H3]].
     specialize (Hp 1%N). rewrite H1, H2, H3 in Hp.
     assert (11 = 99)%N by (apply Hp; lia). discriminate.
 Qed.
+
+(** the same history with commit 6edd82b as well: the header is unchanged after
+    the PRAGMA, the additional copy replicates frame 3 before the bump restarts
+    the WAL, and the acknowledgement restores it *)
+Definition fixed2_steps : list (label N) :=
+  firstn 13 bad2_steps ++
+  [ LsSync N 1;                    (* the copy after the checkpoint: frame 3 *)
+    LsUnlock N;
+    LsBump N [F 2 2 22] true;      (* restarts the WAL: generation 1 *)
+    LsCmpHdr N;                    (* 2 <= 2: re-copy *)
+    LsSync N 1;                    (* evidence (C), now sound: incremental from the new header *)
+    LsAck N ].
+
+Example fixed2_steps_ok : steps_ok N 1000%N true true false ex_init fixed2_steps.
+Proof.
+  cbn [fixed2_steps bad2_steps firstn app Machine.steps_ok].
+  repeat (split; [first [exact I | apply tx_okb_sound; vm_compute; reflexivity]|]; vm_compute Machine.step; cbv iota beta).
+  exact I.
+Qed.
+
+Example fixed2_steps_window : steps_window N 1000%N true true false ex_init fixed2_steps.
+Proof.
+  cbn [fixed2_steps bad2_steps firstn app Machine.steps_window].
+  repeat (split; [reflexivity|]; vm_compute Machine.step; cbv iota beta).
+  exact I.
+Qed.
+
+Example fixed2_run :
+  option_map (fun s => (length (l0 N s), gen N s, pc N s, cur N s,
+                        map (fun a => (fst (fst a), snd a)) (acks N s),
+                        map (fst (restore N 0%N 1000%N (l0 N s))) [1; 2]%N,
+                        map (fst (committed N s)) [1; 2]%N))
+             (run N 1000%N true true false ex_init fixed2_steps)
+  = Some (3, 1, Idle, AtLive 1, [(3, true); (1, true)], [99; 22]%N, [99; 22]%N).
+Proof. vm_compute. reflexivity. Qed.
+
+(** * The window both fixes leave open ([window_ok]): FULL/RESTART, between the
+      header re-read after the PRAGMA and the header read of the copy that
+      follows it.  As before an appended and backfilled frame 3 sits behind
+      litestream's re-acquired mark 0 and the re-read finds the header
+      unchanged; now a second application commit restarts the WAL before the
+      copy reads the header: the copy sees frame 2 intact with the old salts and
+      no unknown salt, continues from the new header (evidence (C)), the bump is
+      appended, walFrameN (2) <= preCheckpointFrameN (2) selects the re-copy:
+      frame 3 is never replicated. *)
+Definition bad3_steps : list (label N) :=
+  firstn 13 bad2_steps ++
+  [ AppCommit N [F 2 2 55] true;   (* restarts the WAL between the re-read and the copy *)
+    LsSync N 1;                    (* the copy after the checkpoint: incremental from the new header *)
+    LsUnlock N;
+    LsBump N [F 2 2 22] false;     (* appended *)
+    LsCmpHdr N;                    (* header changed, not before the re-read, 2 <= 2: re-copy *)
+    LsSync N 1;
+    LsAck N ].
+
+Theorem full_checkpoint_post_copy_window_refuted :
+  exists (s0 : state N) ls s n im b,
+    init_ok N 0%N 1000%N s0 /\ run N 1000%N true true false s0 ls = Some s /\ steps_ok N 1000%N true true false s0 ls /\
+    In (n, im, b) (acks N s) /\
+    ~ img_eq N (restore N 0%N 1000%N (firstn n (l0 N s))) im.
+Proof.
+  destruct (run N 1000%N true true false ex_init bad3_steps) as [s|] eqn:E; [|vm_compute in E; discriminate].
+  exists ex_init, bad3_steps, s.
+  assert (Hs : option_map (fun s => map (fun a => fst (fst a)) (acks N s))
+                          (run N 1000%N true true false ex_init bad3_steps) = Some [3; 1]).
+  { vm_compute. reflexivity. }
+  rewrite E in Hs. cbn in Hs. inversion Hs as [Ha]. clear Hs.
+  destruct (acks N s) as [|[[n im] b] r] eqn:Ea; [discriminate|].
+  exists n, im, b.
+  split; [exact ex_init_ok|]. split; [exact E|]. split.
+  - cbn [bad3_steps bad2_steps firstn app Machine.steps_ok].
+    repeat (split; [first [exact I | apply tx_okb_sound; vm_compute; reflexivity]|]; vm_compute Machine.step; cbv iota beta).
+    exact I.
+  - split; [left; reflexivity|].
+    intros [_ Hp].
+    assert (Hv : option_map (fun s => match acks N s with
+                                      | (n, im, _) :: _ =>
+                                          (snd (restore N 0%N 1000%N (firstn n (l0 N s))),
+                                           fst (restore N 0%N 1000%N (firstn n (l0 N s))) 1%N, fst im 1%N)
+                                      | [] => (0%N, 0%N, 0%N)
+                                      end)
+                            (run N 1000%N true true false ex_init bad3_steps) = Some (2%N, 11%N, 99%N)).
+    { vm_compute. reflexivity. }
+    rewrite E in Hv. cbn [option_map] in Hv. rewrite Ea in Hv. inversion Hv as [[H1 H2 H3]].
+    specialize (Hp 1%N). rewrite H1, H2, H3 in Hp.
+    assert (11 = 99)%N by (apply Hp; lia). discriminate.
+Qed.
+
+(** the same history with the proposed re-read after the copy: it sees the new
+    generation, the boundary snapshot is taken, the acknowledgement restores
+    frame 3's page *)
+Definition fixed3_steps : list (label N) :=
+  firstn 13 bad2_steps ++
+  [ AppCommit N [F 2 2 55] true;
+    LsSync N 1;
+    LsUnlock N;                    (* re-read: header changed *)
+    LsBump N [F 2 2 22] false;
+    LsCmpHdr N;                    (* boundary snapshot *)
+    LsLockWrite N;
+    LsBoundarySnap N;
+    LsAck N ].
+
+Example fixed3_steps_ok : steps_ok N 1000%N true true true ex_init fixed3_steps.
+Proof.
+  cbn [fixed3_steps bad2_steps firstn app Machine.steps_ok].
+  repeat (split; [first [exact I | apply tx_okb_sound; vm_compute; reflexivity]|]; vm_compute Machine.step; cbv iota beta).
+  exact I.
+Qed.
+
+Example fixed3_run :
+  option_map (fun s => (gen N s, pc N s, cur N s,
+                        map (fun a => snd a) (acks N s),
+                        map (fst (restore N 0%N 1000%N (l0 N s))) [1; 2]%N,
+                        map (fst (committed N s)) [1; 2]%N))
+             (run N 1000%N true true true ex_init fixed3_steps)
+  = Some (1, Idle, AtLive 2, [true; true], [99; 22]%N, [99; 22]%N).
+Proof. vm_compute. reflexivity. Qed.
